@@ -35,7 +35,7 @@ def _assign_of_call(fn, attr_name):
 
 def r1_r3(tree, rep):
     fn = tree.func(RX, "Receiver", "_transfer_data")
-    g = build(fn)
+    g = build(fn, split=True)
     wt = _assign_of_call(fn, "writeToFile")
     ok = len(wt) == 1
     rep.check("C04.R1", "_transfer_data receives through exactly one writeToFile call whose result is kept", ok, site(fn, RX),
@@ -49,17 +49,13 @@ def r1_r3(tree, rep):
               key="C04.R1:expected-size", what="the receiver no longer waits for the announced number of bytes")
     rep.check("C04.R1", "the writeToFile Deferred is awaited (yield)", isinstance(asg.value, (ast.Yield, ast.Await)), site(call, RX),
               key="C04.R1:awaited")
-    def short_test(t):
-        if isinstance(t, ast.Compare) and len(t.ops) == 1:
-            l, r, op = t.left, t.comparators[0], t.ops[0]
-            if isinstance(l, ast.Name) and l.id == var and is_self_attr(r, "xfersize") and isinstance(op, (ast.Lt, ast.NotEq)):
-                return True
-            if isinstance(r, ast.Name) and r.id == var and is_self_attr(l, "xfersize") and isinstance(op, (ast.Gt, ast.NotEq)):
-                return True
-        return False
-    tests = [n for n in g.nodes(lambda s: isinstance(s, ast.If)) if short_test(g.stmt[n].test)]
-    ok = len(tests) >= 1 and all(g.branch_always_raises(t, 'T') for t in tests) and not g.guarded_by(tests, [g.exit], 'F') \
-        and len(local_defs(fn, var)) == 1
+    from ..cfg import cmp_atom
+    is_var = lambda e: isinstance(e, ast.Name) and e.id == var
+    is_size = lambda e: is_self_attr(e, "xfersize")
+    a1 = cmp_atom(is_var, is_size, (ast.Lt,), (ast.GtE,))
+    a2 = cmp_atom(is_var, is_size, (ast.NotEq,), (ast.Eq,))
+    short = lambda e: a1(e) or a2(e)        # "fewer bytes than announced"
+    ok = g.when_always_raises(short, True) and not g.only_when([g.exit], short, False) and len(local_defs(fn, var)) == 1
     rep.check("C04.R1", "_transfer_data returns normally only when received >= xfersize (the short-transfer edge raises)", ok, site(fn, RX),
               key="C04.R1:short-transfer-raises", what="a truncated transfer can be reported as complete (the temporary file would become the destination)")
     # R3 digest
@@ -104,7 +100,7 @@ def r2(tree, rep):
     wf = g.call_nodes(lambda c: dotted(c.func) == "self._write_file")
     wd = g.call_nodes(lambda c: dotted(c.func) == "self._write_directory")
     ct = g.call_nodes(lambda c: dotted(c.func) == "self._close_transit")
-    ok = len(td) == 2 and len(wf) == 1 and len(wd) == 1 and len(ct) == 2
+    ok = 1 <= len(td) <= 2 and len(wf) == 1 and len(wd) == 1 and 1 <= len(ct) <= 2
     rep.check("C04.R2", "_parse_offer: file and directory branches each transfer, write, acknowledge", ok, site(fn, RX), key="C04.R2:shape")
     if ok:
         rep.check("C04.R2", "the destination is written only after the data transfer returned", not g.precedes(td, wf + wd), site(fn, RX),
@@ -116,11 +112,15 @@ def r2(tree, rep):
                 rep.check("C04.R2", "%s is awaited (yield): its failure fails the receive" % dotted(c.func), isinstance(parent(c), (ast.Yield, ast.Await)),
                           site(c, RX), key="C04.R2:awaited:%s:%d" % (dotted(c.func), (td + ct).index(n)))
         # same file object: handle -> transfer -> write
-        for handler, writer in (("self._handle_file", "self._write_file"), ("self._handle_directory", "self._write_directory")):
-            hv = [n.targets[0].id for n in walk_shallow(fn) if isinstance(n, ast.Assign) and isinstance(n.value, ast.Call)
-                  and dotted(n.value.func) == handler and isinstance(n.targets[0], ast.Name)]
+        pairs = (("self._handle_file", "self._write_file", wd), ("self._handle_directory", "self._write_directory", wf))
+        for handler, writer, other_writer_nodes in pairs:
+            hdefs = [n for n in g.nodes(lambda s: isinstance(s, ast.Assign) and isinstance(s.value, ast.Call)
+                                        and dotted(s.value.func) == handler and isinstance(s.targets[0], ast.Name))]
+            hv = [g.stmt[n].targets[0].id for n in hdefs]
             wcalls = [c for c in ast.walk(fn) if isinstance(c, ast.Call) and dotted(c.func) == writer]
             okf = len(hv) == 1 and len(wcalls) == 1 and isinstance(wcalls[0].args[0], ast.Name) and wcalls[0].args[0].id == hv[0]
+            # what this handler opened never reaches the other kind's writer (paths contradicting a local flag are infeasible)
+            okf = okf and not (g.reach_feasible_via(hdefs) & set(other_writer_nodes))
             tcalls = [c for c in ast.walk(fn) if isinstance(c, ast.Call) and dotted(c.func) == "self._transfer_data"
                       and len(c.args) == 2 and isinstance(c.args[1], ast.Name) and c.args[1].id == (hv[0] if hv else None)]
             rep.check("C04.R2", "%s's file object is what _transfer_data fills and %s consumes" % (handler, writer), okf and len(tcalls) >= 1,
@@ -169,7 +169,7 @@ def r2(tree, rep):
 
 def r4(tree, rep):
     fn = tree.func(TX, "Sender", "_send_file")
-    g = build(fn)
+    g = build(fn, split=True)
     acks = _assign_of_call(fn, "receive_record")
     ok = len(acks) == 1 and isinstance(acks[0][0].value, (ast.Yield, ast.Await))
     rep.check("C04.R4", "_send_file awaits exactly one receive_record() for the acknowledgement", ok, site(fn, TX), key="C04.R4:ack-source")
@@ -186,10 +186,9 @@ def r4(tree, rep):
             and e.func.value.id == ackv and const(e.args[0]) == key
     def is_ack_sub(e, key):
         return isinstance(e, ast.Subscript) and isinstance(e.value, ast.Name) and e.value.id == ackv and const(e.slice) == key
-    t1 = [n for n in g.nodes(lambda s: isinstance(s, ast.If)) if isinstance(g.stmt[n].test, ast.Compare) and len(g.stmt[n].test.ops) == 1
-          and isinstance(g.stmt[n].test.ops[0], ast.NotEq) and (is_ack_get(g.stmt[n].test.left, "ack") or is_ack_sub(g.stmt[n].test.left, "ack"))
-          and const(g.stmt[n].test.comparators[0]) == "ok"]
-    ok = ok and len(t1) == 1 and g.branch_always_raises(t1[0], 'T') and not g.guarded_by(t1, [g.exit], 'F')
+    from ..cfg import cmp_atom, in_atom
+    ack_ok = cmp_atom(lambda e: is_ack_get(e, "ack") or is_ack_sub(e, "ack"), lambda e: const(e) == "ok")
+    ok = ok and g.when_always_raises(ack_ok, False) and not g.only_when([g.exit], ack_ok, True)
     rep.check("C04.R4", "the sender finishes normally only if the acknowledgement says ack == \"ok\"", ok, site(fn, TX), key="C04.R4:ack-ok",
               what="the sender can report success without a positive acknowledgement")
     # hash comparison
@@ -201,13 +200,13 @@ def r4(tree, rep):
         e = expand(fn, e, stop={hv})
         return isinstance(e, ast.Call) and dotted(e.func) == "bytes_to_hexstr" and isinstance(e.args[0], ast.Call) \
             and dotted(e.args[0].func) == "%s.digest" % hv
-    t3 = [n for n in g.nodes(lambda s: isinstance(s, ast.If)) if isinstance(g.stmt[n].test, ast.Compare) and isinstance(g.stmt[n].test.ops[0], ast.In)
-          and const(g.stmt[n].test.left) == "sha256" and isinstance(g.stmt[n].test.comparators[0], ast.Name) and g.stmt[n].test.comparators[0].id == ackv]
-    t2 = [n for n in g.nodes(lambda s: isinstance(s, ast.If)) if isinstance(g.stmt[n].test, ast.Compare) and isinstance(g.stmt[n].test.ops[0], ast.NotEq)
-          and ((is_ack_sub(g.stmt[n].test.left, "sha256") and is_expected_hex(g.stmt[n].test.comparators[0]))
-               or (is_ack_sub(g.stmt[n].test.comparators[0], "sha256") and is_expected_hex(g.stmt[n].test.left)))]
-    ok = okh and len(t2) == 1 and len(t3) == 1 and g.branch_always_raises(t2[0], 'T') and g.must_pass(t3, explicit_only=True) \
-        and g.must_pass(t2, start=g.branch_targets(t3[0], 'T'), explicit_only=True)
+    has_sha = in_atom(lambda e: const(e) == "sha256", lambda e: isinstance(e, ast.Name) and e.id == ackv)
+    sha_equal = cmp_atom(lambda e: is_ack_sub(e, "sha256") or is_ack_get(e, "sha256"), is_expected_hex)
+    # a digest that differs fails the send; with a sha256 in the acknowledgement the comparison cannot be bypassed:
+    # the normal exit is reached only over "no sha256 in the ack" or "the digests are equal"
+    avoid = set(g.cond_edges(has_sha, False)) | set(g.cond_edges(sha_equal, True))
+    ok = okh and g.when_always_raises(sha_equal, False) and bool(g.cond_edges(has_sha, True)) \
+        and g.exit not in g.reach(g.entry, avoid_edges=avoid, explicit_only=True)
     rep.check("C04.R4", "when the acknowledgement carries sha256 it must equal the hex digest of what was sent, else the sender fails", ok,
               site(fn, TX), key="C04.R4:hash-compare", what="a receiver-side hash mismatch no longer fails the send")
     # the transform
